@@ -578,6 +578,31 @@ struct ImpyBox { ImpySize sz; float64 w; }
 message ImpyTag { 1 -> string k; 2 -> ImpyBox box; }
 `
 
+// c14ImpVer selects the revision of the imported files that prepareFile writes: the files
+// an import names are part of what Generate is given, and they change between calls (an
+// edit, a checkout) while the process lives on. Set per scenario, passed to fresh processes.
+var c14ImpVer int
+
+func impTexts(ver int) (string, string) {
+	x, y := impText, impTextY
+	switch ver {
+	case 1:
+		// (what the importing file's own output shows of an imported file: its package, the
+		// kinds and base types of its definitions)
+		x = strings.Replace(x, "example.com/sim/impx", "example.com/sim/v2/impx", 1)
+		x = strings.Replace(x, "enum ImpColor {", "enum ImpColor : uint8 {", 1)
+		x = strings.Replace(x, "int32 y; ImpColor c; }", "int32 y; ImpColor c; int32 z; }", 1)
+		x = strings.Replace(x, "Green = 2; }", "Green = 2; Blue = 3; }", 1)
+		x = strings.Replace(x, "2 -> ImpPoint at; }", "2 -> ImpPoint at; 3 -> uint8 prio; }", 1)
+	case 2:
+		y = strings.Replace(y, "example.com/sim/impy", "example.com/sim/impy2", 1)
+		y = strings.Replace(y, "enum ImpySize {", "enum ImpySize : int64 {", 1)
+		y = strings.Replace(y, "float64 w; }", "float64 w; string label; }", 1)
+		x = strings.Replace(x, "1 -> ImpPoint p; } }", "1 -> ImpPoint p; } 3 -> struct ImpC { int64 n; } }", 1)
+	}
+	return x, y
+}
+
 // importUses are further definitions of the importing file that refer to imported types
 // from inside containers.
 var importUses = []string{
@@ -591,8 +616,9 @@ var importUses = []string{
 // optionally gives every top-level slice spare capacity filled with sentinel entries.
 func prepareFile(text string, withImport bool, spare int) (*bebop.File, []byte, error) {
 	ws := workspace()
-	os.WriteFile(filepath.Join(ws.dir, "impx.bop"), []byte(impText), 0o644)
-	os.WriteFile(filepath.Join(ws.dir, "impy.bop"), []byte(impTextY), 0o644)
+	ix, iy := impTexts(c14ImpVer)
+	os.WriteFile(filepath.Join(ws.dir, "impx.bop"), []byte(ix), 0o644)
+	os.WriteFile(filepath.Join(ws.dir, "impy.bop"), []byte(iy), 0o644)
 	os.WriteFile(filepath.Join(ws.dir, "cyca.bop"), []byte("import \"cycb.bop\"\nimport \"cycc.bop\"\nimport \"cycd.bop\"\nconst string go_package = \"example.com/sim/cyca\";\nstruct CycA { int32 a; }\n"), 0o644)
 	os.WriteFile(filepath.Join(ws.dir, "cycb.bop"), []byte("import \"cyca.bop\"\nconst string go_package = \"example.com/sim/cycb\";\nstruct CycB { int32 b; }\n"), 0o644)
 	os.WriteFile(filepath.Join(ws.dir, "cycc.bop"), []byte("import \"cyca.bop\"\nconst string go_package = \"example.com/sim/cycc\";\nstruct CycC { int32 c; }\n"), 0o644)
@@ -659,6 +685,11 @@ func runC14(c *Ctx) *Replay {
 	}
 	sc.Extra["import"] = fmt.Sprint(withImport)
 	sc.Extra["spare"] = fmt.Sprint(spare)
+	if withImport && r.Chance(1, 2) {
+		// the imported files exist in three revisions; which one is on disk changes from
+		// scenario to scenario while the process and the path stay the same
+		sc.Extra["impver"] = fmt.Sprint(1 + r.Intn(2))
+	}
 	if withImport && r.Chance(1, 2) {
 		sc.Extra["impform"] = fmt.Sprint(1 + r.Intn(len(importUses)))
 	}
@@ -837,6 +868,7 @@ func execConcurrent(n *Node, sc *Scenario) *Violation {
 	}
 	withImport := sc.Extra["import"] == "true"
 	spare := int(atoiDefault(sc.Extra["spare"], 0))
+	c14ImpVer = int(atoiDefault(sc.Extra["impver"], 0))
 	if lay := atoiDefault(sc.Extra["layout"], 0); lay > 0 {
 		// the same schema in another layout (comments, CRLF, trailing remarks)
 		cp := *prog
@@ -871,6 +903,10 @@ func execConcurrent(n *Node, sc *Scenario) *Violation {
 	// prelude: the complementary call (every option flipped) of each task, so that the
 	// scenario itself contains a history of calls with different settings; state that a
 	// first call freezes then conflicts with the tasks in ANY process, also a replay's
+	// ... and the imported files were in ANOTHER revision then (same paths, rewritten within
+	// the same second): what a call saw on disk earlier must not show in a later call
+	scenVer := c14ImpVer
+	c14ImpVer = (scenVer + 1) % 3
 	for _, ts := range sc.Tasks {
 		comp := ts
 		comp.Mask ^= 31
@@ -881,6 +917,7 @@ func execConcurrent(n *Node, sc *Scenario) *Violation {
 			simrt.SetMapOrder(simrt.OrderNative, 0)
 		}
 	}
+	c14ImpVer = scenVer
 	// the library starts goroutines of its own (the instrumenter counted go statements):
 	// they would call into the baton from outside it. The callers then run FREE, as plain
 	// goroutines on several processors, and only the outcome oracles judge.
@@ -1349,6 +1386,7 @@ type oneshotReq struct {
 	WithImport bool     `json:"import"`
 	Spare      int      `json:"spare"`
 	Task       TaskSpec `json:"task"`
+	ImpVer     int      `json:"imp_ver,omitempty"`
 }
 
 type oneshotRes struct {
@@ -1383,6 +1421,7 @@ func oneshotMain() int {
 		fmt.Fprintln(os.Stderr, err)
 		return 2
 	}
+	c14ImpVer = req.ImpVer
 	f, text, err := prepareFile(req.Bop, req.WithImport, req.Spare)
 	if err != nil {
 		json.NewEncoder(os.Stdout).Encode(oneshotRes{ErrText: "parse: " + err.Error()})
@@ -1406,7 +1445,7 @@ var freshCache = map[string]*oneshotRes{}
 // freshResult runs the task in a fresh process (memoised per call description).
 func freshResult(bop string, withImport bool, spare int, ts TaskSpec) (*oneshotRes, error) {
 	ts.MapOrder = MapOrder{}
-	req := oneshotReq{Bop: bop, WithImport: withImport, Spare: spare, Task: ts}
+	req := oneshotReq{Bop: bop, WithImport: withImport, Spare: spare, Task: ts, ImpVer: c14ImpVer}
 	key, _ := json.Marshal(req)
 	if r, ok := freshCache[string(key)]; ok {
 		return r, nil
